@@ -303,6 +303,8 @@ def _split_or(p):
 def parse_quote_ok(ctx, N, node):
     """parse_quote! cannot fail when its template is a well-formed path / type skeleton for every interpolation"""
     t = N.term(node)
+    while t[0] in ("early", "seq"):
+        t = t[2]            # guard clauses / effects that floated out of the interpolations
     if t[0] != "tpl":
         return None
     text = t[2]
